@@ -59,6 +59,15 @@ type c13Case struct {
 	PreStream  bool       `json:"preStream,omitempty"`  // enclosing levels: `pre` streams
 	Events     []c13Event `json:"events,omitempty"`     // what the oracle's step model reads
 	Order      []string   `json:"order,omitempty"`
+	// family ctxend (c13_ctxfwd.go): the context of the run ends
+	CtxHow  string     `json:"ctxHow,omitempty"`  // implementation side: cancel | cancelcause | deadline-past | timeoutcause | timeout | manual-canceled | manual-deadline | manual-custom
+	CtxEnd  *c13CtxEnd `json:"ctxEnd,omitempty"`  // oracle side: what ctx.Err() is once Done() is closed
+	EndAt   int        `json:"endAt,omitempty"`   // the graph level (0 = outermost) whose loop is between two steps when the context ends
+	EndWhen string     `json:"endWhen,omitempty"` // start (already done when the run is called; EndAt = 0) | node (a node of that level ends it and returns normally)
+	CtxWrap string     `json:"ctxWrap,omitempty"` // what the caller hands to the run: none (the context itself) | value | cancel (a child derived from it)
+	Targets []int      `json:"targets,omitempty"` // errors.Is is compared for every one of these
+	// family fwdtree (c13_ctxfwd.go): a reader expression drained by a consumer
+	Tree *c13Tree `json:"tree,omitempty"`
 }
 
 type c13Obs struct {
@@ -66,6 +75,14 @@ type c13Obs struct {
 	Path      []string `json:"path"`
 	Interrupt bool     `json:"interrupt"`
 	Text      string   `json:"text,omitempty"` // start of the error message (panic families)
+	IsT       []bool   `json:"isT,omitempty"`  // ctxend: errors.Is per target
+	// fwdtree: what the consumer received (sorted), how the reader ended
+	End      string `json:"end,omitempty"` // eof | caller-panic | endless
+	PanicVal *int   `json:"panicVal,omitempty"`
+	Items    []int  `json:"items,omitempty"`
+	Errs     []int  `json:"errs,omitempty"`
+	PErrs    []int  `json:"perrs,omitempty"`
+	Other    string `json:"other,omitempty"` // an error item that is neither
 }
 
 // ---- error values ----
@@ -85,6 +102,9 @@ func c13Leaf(id int, custom bool) error {
 	}
 	if id == 1001 {
 		return context.Canceled
+	}
+	if id == 1002 {
+		return context.DeadlineExceeded
 	}
 	k := id*2 + map[bool]int{false: 0, true: 1}[custom]
 	if e, ok := c13Leaves[k]; ok {
@@ -112,7 +132,7 @@ func c13Build(e c13Err, custom bool) error {
 
 // ---- building the graph ----
 
-func c13FailingLambda(c *c13Case, cancel context.CancelFunc) *compose.Lambda {
+func c13FailingLambda(c *c13Case) *compose.Lambda {
 	fail := func() error {
 		if c.Err.K == "panic" {
 			panic(fmt.Sprintf("boom-%d", c.Err.ID))
@@ -146,14 +166,25 @@ func c13Tag(t string) *compose.Lambda {
 
 // level i graph: START -> pre -> [keyᵢ (+ siblings)] -> END ; keyᵢ is the next graph, or the
 // failing node at the innermost level.
-func c13Graph(c *c13Case, lvl int, cancel context.CancelFunc) (*compose.Graph[string, string], []compose.GraphCompileOption, error) {
+//
+// endCtx is what the node that ends the context of the run does (kinds cancel, ctxend); it gets
+// the node's own context.
+func c13Graph(c *c13Case, lvl int, endCtx func(context.Context)) (*compose.Graph[string, string], []compose.GraphCompileOption, error) {
 	dag := lvl < len(c.Mode) && c.Mode[lvl] == "dag" && !(lvl == len(c.Levels) && c.Kind == "maxsteps")
 	g := compose.NewGraph[string, string]()
 	opts := []compose.GraphCompileOption{}
 	if dag {
 		opts = append(opts, compose.WithNodeTriggerMode(compose.AllPredecessor))
 	}
-	if err := g.AddLambdaNode("pre", c13Tag("p")); err != nil {
+	ender := compose.InvokableLambda(func(ctx context.Context, in string) (string, error) {
+		endCtx(ctx)
+		return in, nil
+	})
+	pre := c13Tag("p")
+	if c.Kind == "ctxend" && c.EndWhen == "node" && lvl == c.EndAt && lvl < len(c.Levels) {
+		pre = ender // the context ends while this level is between `pre` and its sub-graph node
+	}
+	if err := g.AddLambdaNode("pre", pre); err != nil {
 		return nil, nil, err
 	}
 	if err := g.AddEdge(compose.START, "pre"); err != nil {
@@ -176,11 +207,12 @@ func c13Graph(c *c13Case, lvl int, cancel context.CancelFunc) (*compose.Graph[st
 				return "a", nil
 			}, map[string]bool{"a": true, compose.END: true}))
 			opts = append(opts, compose.WithMaxRunSteps(3+c.Siblings))
-		case "cancel":
-			g.AddLambdaNode("c", compose.InvokableLambda(func(ctx context.Context, in string) (string, error) {
-				cancel()
-				return in, nil
-			}))
+		case "cancel", "ctxend":
+			if c.Kind == "ctxend" && !(c.EndWhen == "node" && c.EndAt == lvl) {
+				g.AddLambdaNode("c", c13Tag("c"))
+			} else {
+				g.AddLambdaNode("c", ender)
+			}
 			g.AddLambdaNode("after", c13Tag("x"))
 			g.AddEdge("pre", "c")
 			g.AddEdge("c", "after")
@@ -201,7 +233,7 @@ func c13Graph(c *c13Case, lvl int, cancel context.CancelFunc) (*compose.Graph[st
 				return "", c13Build(c.Err, c.AsCustom)
 			}))
 		} else {
-			g.AddLambdaNode(key, c13FailingLambda(c, cancel))
+			g.AddLambdaNode(key, c13FailingLambda(c))
 		}
 		g.AddEdge("pre", key)
 		if dag || c.Siblings == 0 {
@@ -214,7 +246,7 @@ func c13Graph(c *c13Case, lvl int, cancel context.CancelFunc) (*compose.Graph[st
 			sk := fmt.Sprintf("sib%d", i)
 			if i < c.CoFail && c.Kind == "node" {
 				// several nodes of one step fail: whichever is reported, it must be unwrappable and named
-				g.AddLambdaNode(sk, c13FailingLambda(c, cancel))
+				g.AddLambdaNode(sk, c13FailingLambda(c))
 			} else {
 				g.AddLambdaNode(sk, c13Tag("s"))
 			}
@@ -230,7 +262,7 @@ func c13Graph(c *c13Case, lvl int, cancel context.CancelFunc) (*compose.Graph[st
 		return g, opts, nil
 	default:
 		key := c.Levels[lvl].Key
-		sub, subOpts, err := c13Graph(c, lvl+1, cancel)
+		sub, subOpts, err := c13Graph(c, lvl+1, endCtx)
 		if err != nil {
 			return nil, nil, err
 		}
@@ -244,8 +276,13 @@ func c13Graph(c *c13Case, lvl int, cancel context.CancelFunc) (*compose.Graph[st
 }
 
 func c13RunImpl(c *c13Case) (obs *c13Obs, class string) {
+	if c.Kind == "fwdtree" {
+		return c13FwdRun(c)
+	}
 	ctx, cancel := context.WithCancel(context.Background())
 	defer cancel()
+	runCtx := ctx
+	var ender *c13CtxEnder // family ctxend: made after Compile, right before the run
 	var r compose.Runnable[string, string]
 	if c13IsPanicFamily(c.Kind) {
 		var err error
@@ -253,7 +290,13 @@ func c13RunImpl(c *c13Case) (obs *c13Obs, class string) {
 			return nil, "compile-error:" + err.Error()
 		}
 	} else {
-		g, opts, err := c13Graph(c, 0, cancel)
+		g, opts, err := c13Graph(c, 0, func(nodeCtx context.Context) {
+			if ender != nil {
+				ender.endFromNode(nodeCtx)
+			} else {
+				cancel()
+			}
+		})
 		if err != nil {
 			return nil, "build-error:" + err.Error()
 		}
@@ -261,14 +304,22 @@ func c13RunImpl(c *c13Case) (obs *c13Obs, class string) {
 		if err != nil {
 			return nil, "compile-error:" + err.Error()
 		}
+		if c.Kind == "ctxend" {
+			ender = newC13CtxEnder(c)
+			defer ender.release()
+			runCtx = ender.beforeRun()
+		}
 	}
 	var runErr error
 	finished := false
-	if panicked, pv := vh.Safely(func() { finished = c13Call(ctx, c, r, &runErr) }); panicked {
+	if panicked, pv := vh.Safely(func() { finished = c13Call(runCtx, c, r, &runErr) }); panicked {
 		return nil, fmt.Sprint("panic-escaped:", pv)
 	}
 	if !finished {
 		return nil, "hang"
+	}
+	if ender != nil && !ender.valid() {
+		return nil, "void" // a real timer fired before the run reached the node that waits for it: nothing to compare
 	}
 	if runErr == nil {
 		return nil, "no-error"
@@ -280,6 +331,9 @@ func c13RunImpl(c *c13Case) (obs *c13Obs, class string) {
 		o.Is = errors.As(runErr, &ce) && ce == target
 	} else {
 		o.Is = errors.Is(runErr, target)
+	}
+	for _, t := range c.Targets {
+		o.IsT = append(o.IsT, errors.Is(runErr, c13Leaf(t, false)))
 	}
 	if p, ok := compose.VerifErrNodePath(runErr); ok {
 		o.Path = append(o.Path, p...)
@@ -614,7 +668,7 @@ func c13One(ctx *vh.Ctx, c *c13Case) error {
 }
 
 func runC13(ctx *vh.Ctx) error {
-	ctx.Res.Rule = "random failure scenarios: nesting depth 0-4, failing lambda kind x calling paradigm x trigger mode per level x error shape (leaf / %w chains / panic / post-handler / step limit / cancellation); non-trivial = at least one nesting level; distinct by (kind, lambda kind, paradigm, depth, error shape, modes, siblings); plus the panic families statepanic (graphs/chains/workflows with state: failing inside the ProcessState handler while siblings of the step use the state; non-trivial = at least one sibling) and streampanic (channel-backed stream inputs, close styles, several failing lanes, run in a child process), distinct by all their case fields"
+	ctx.Res.Rule = "random failure scenarios: nesting depth 0-4, failing lambda kind x calling paradigm x trigger mode per level x error shape (leaf / %w chains / panic / post-handler / step limit / cancellation); non-trivial = at least one nesting level; distinct by (kind, lambda kind, paradigm, depth, error shape, modes, siblings); plus the panic families statepanic (graphs/chains/workflows with state: failing inside the ProcessState handler while siblings of the step use the state; non-trivial = at least one sibling) and streampanic (channel-backed stream inputs, close styles, several failing lanes, run in a child process), distinct by all their case fields; ctxend (the context of the run ends between two steps of a graph at any nesting level: cancel / cancel(cause) / expired deadline or timeout / a context type of the caller with Err() = DeadlineExceeded, Canceled or its own value; already done at the start or ended by a node that returns normally; handed to the run directly or as a WithValue / WithCancel child; errors.Is compared against Canceled, DeadlineExceeded, the custom value, the cause, ErrExceedMaxSteps; non-trivial = not a plain top-level cancellation; distinct by how/when/wrap/paradigm/level/modes) and fwdtree (reader expressions: StreamReaderWithConvert with a convert function that panics or fails on chosen values, Copy, MergeStreamReaders over array- and channel-backed sources, drained in a child process; non-trivial = a panic is raised on a forwarding goroutine; distinct by the expression)"
 	if ctx.Replay != nil {
 		var c c13Case
 		if err := json.Unmarshal(ctx.Replay, &c); err != nil {
@@ -640,6 +694,13 @@ func runC13(ctx *vh.Ctx) error {
 			_, err := c13StreamBatch(ctx, []*c13Case{&c})
 			return err
 		}
+		if c.Kind == "ctxend" {
+			return c13CtxOne(ctx, &c)
+		}
+		if c.Kind == "fwdtree" {
+			_, err := c13FwdBatch(ctx, []*c13Case{&c})
+			return err
+		}
 		return c13One(ctx, &c)
 	}
 	n := ctx.N(3000, 20000)
@@ -650,6 +711,9 @@ func runC13(ctx *vh.Ctx) error {
 		}
 	}
 	if err := c13RunPanicFamilies(ctx); err != nil {
+		return err
+	}
+	if err := c13RunCtxFwdFamilies(ctx); err != nil {
 		return err
 	}
 	for _, par := range []string{"invoke", "stream", "collect", "transform"} {
